@@ -171,6 +171,17 @@ Theorem never_computes_after_end : forall w p h p' rid,
 Proof. exact ProofsProduct.never_computes_after_end_l. Qed.
 Print Assumptions never_computes_after_end.
 
+(** ... counted: [r_runs] is the number of computations the rerunner has begun (the BeginCompute step of
+    Rerunner.run, where the function handleSubscribe / handleMutate gave to NewRerunner - Execute, the
+    resolvers - is called).  After the end of a subscription the count never moves again, in any continuation:
+    whatever data changes, timers, cancellations and schedules follow.  (Server/ProofsRuns.v: the counter
+    grows only by a task standing at [FBegin rid], which [after_stop] excludes.) *)
+Theorem no_computation_begins_after_end : forall w p h p' rid,
+  preachable w p -> stopped_in (fst p) rid = true -> prun w p h = Some p' ->
+  RR.r_runs (RR.getr (snd p') rid) = RR.r_runs (RR.getr (snd p) rid).
+Proof. exact ProofsProduct.no_computation_begins_after_end_l. Qed.
+Print Assumptions no_computation_begins_after_end.
+
 (** Its reactive resources are released.
     FULL STATEMENT: ... and every resource node registered by a computation of [rid] that no other
     computation depends on has [n_rel] set and its Cleanup ran exactly once.
